@@ -184,6 +184,13 @@ func VerifSpeakerConverge(event int) {
 	if event == 7 {
 		w.svcs[0] = vhLBService("a", ipA.String(), "fd00::5")
 	}
+	if event == 10 {
+		// service b never gets announced by this speaker (no ready endpoint) and lives in the upper half
+		// of the pool, service a in the lower half
+		w.eps[1] = vhEps(false)
+		vr.Assume(ipA[3] < 128)
+		vr.Assume(ipB[3] >= 128)
+	}
 	if event == 8 {
 		// dual-stack with the IPv6 address listed first (the election key is the first address)
 		w.svcs[0] = vhLBService("a", "fd00::5", ipA.String())
@@ -233,6 +240,16 @@ func VerifSpeakerConverge(event int) {
 	case 6: // configuration change: the BGP advertisement stops / starts selecting this node
 		w.cfg = vhCfg([]string{"eth0"}, false, l2me, vr.Bool())
 		st = L.c.SetConfig(lg, w.cfg)
+	case 10: // service b is deleted, then the pool shrinks to the half that holds service a
+		w.svcs[1] = nil
+		if L.c.SetBalancer(lg, w.names[1], nil, w.eps[1]) == controllers.SyncStateReprocessAll {
+			w.resync(L)
+		}
+		w.cfg = vhCfg([]string{"eth0"}, false, l2me, bgpme)
+		_, half, _ := net.ParseCIDR("10.0.0.0/25")
+		w.cfg.Pools.ByName["pool"].CIDR[0] = half
+		st = L.c.SetConfig(lg, w.cfg)
+		vr.Assert(st != controllers.SyncStateError, "a configuration that covers every existing Service was refused")
 	case 9: // the OTHER node's conditions / labels change (the layer-2 election depends on every node)
 		w.nodes[1] = vhNode(vhOther, vr.Bool(), vr.Bool())
 		st = L.c.SetNode(lg, w.nodes[1])
